@@ -474,7 +474,14 @@ void sm9_z256_modp_haf(sm9_z256_t r, const sm9_z256_t a)
 
 void sm9_z256_modp_neg(sm9_z256_t r, const sm9_z256_t a)
 {
+	// -0 = 0 (not p)
+	uint64_t mask = sm9_z256_is_zero(a) - 1;
+
 	(void)sm9_z256_sub(r, SM9_Z256_P, a);
+	r[0] &= mask;
+	r[1] &= mask;
+	r[2] &= mask;
+	r[3] &= mask;
 }
 #endif
 
